@@ -2015,9 +2015,10 @@ def canon(t):
                     return _mk_poly({(('call', G('sum'), (('map', ('lam', m[1][1], inner), m[2]),), ()),): c})
         return t
     if k in ('and', 'or'):
-        if len(t[1]) >= 2 and all(p_[0] == 'ge0' and _total_int(p_[1]) for p_ in t[1]):
-            # comparisons of names, attributes of self and lengths are total: their order inside a conjunction / disjunction
-            # does not matter (a subscript or another call inside a comparison can raise, so such a test stays where it is)
+        if len(t[1]) >= 2 and all(p_[0] == 'ge0' for p_ in t[1]) and len({_risky_factors(p_[1]) for p_ in t[1]}) == 1:
+            # comparisons of names, attributes and lengths of names are total; where every test evaluates the same possibly
+            # raising factors (e.g. the same len(filter(...))), whichever test comes first evaluates them first: in both cases
+            # the order inside the conjunction / disjunction does not matter. Otherwise a test stays where it is.
             return (k, tuple(sorted(t[1], key=_key)))
         return t
     if k == 'if' and t[1][0] != 'const':
@@ -2238,20 +2239,19 @@ def _assume(t, cond, value):
     return replace(t, f)
 
 
-def _total_int(p):
-    """every factor of the polynomial is a name, a constant, an attribute chain or a len(...) of such / of a sequence term"""
+def _risky_factors(p):
+    """the factors of an integer polynomial whose evaluation can raise (anything but names, constants, attribute chains and
+    len() of those), as a frozenset"""
     def ok(x):
         if x[0] in ('var', 'bv', 'const', 'glob'):
             return True
         if x[0] == 'attr':
             return ok(x[1])
         if _is_len(x):
-            y = _strip_seq(x[2][0])
-            return ok(y) or y[0] in ('filter', 'map', 'concat', 'list', 'tuple') and not any(z[0] == 'sub' for z in walk(y))
+            return ok(_strip_seq(x[2][0]))
         return False
-    if p[0] == 'poly':
-        return all(ok(f_) for c_, mono in p[1] for f_ in mono)
-    return ok(p)
+    facs = [f_ for c_, mono in p[1] for f_ in mono] if p[0] == 'poly' else [p]
+    return frozenset(f_ for f_ in facs if not ok(f_))
 
 
 def _strip_seq(x):
